@@ -613,6 +613,9 @@ def wsdl_cfgs(q):
                               attr_named_simple=False, avoid_nested_same_name=True, p_inline_schemas=0.4)),
         ("wsdl-keywords", gen.cfg_with(files=(1, 2), wsdl=True, p_inline_schemas=0.3, quarantine=q, keyword_rate=0.3, p_prelude_op_name=0.35, complex_per_file=(0, 2), simple_per_file=(0, 2),
                                        elements_per_file=(0, 1), attr_named_simple=False, avoid_nested_same_name=True)),
+        # every special operation name in turn (names of prelude types, `new`, single-letter words, leading acronyms), each with a soapAction
+        ("wsdl-opnames", gen.cfg_with(files=(1, 2), wsdl=True, quarantine=q, p_prelude_op_name=1.0, op_names_in_turn=True, p_soap_action=1.0, ops=(3, 4), complex_per_file=(0, 1),
+                                      simple_per_file=(0, 1), elements_per_file=(0, 1), attr_named_simple=False, avoid_nested_same_name=True, p_inline_schemas=0.3)),
         ("wsdl-headers", gen.cfg_with(files=(1, 3), wsdl=True, quarantine=q, headers=(1, 3), p_parts_attr=0.3, complex_per_file=(0, 1), p_part_element_cross=0.5, p_inline_schemas=0.4,
                                       simple_per_file=(0, 2), elements_per_file=(0, 1), ops=(1, 3), attr_named_simple=False, avoid_nested_same_name=True)),
     ]
@@ -848,7 +851,7 @@ def run(prop, tier):
         wide = [("core-wide-facets", gen.cfg_with(files=(1, 2), quarantine=q, wide_facets=0.8, simple_per_file=(3, 5), complex_per_file=(1, 2)))]
         # compile-only and cheap: the profiles of the other structural properties as well (adversarial namespaces incl. three
         # and more colliding abbreviations, reused names, extension forests and twins)
-        more = pick(q, "ns", "ns-wsdl", "names", "ext", "ext-twin")
+        more = pick(q, "ns", "ns-wsdl", "names", "ext", "ext-twin", "wsdl-opnames")
         check_generic("C01", tier, core_cfgs(q) + wide + more, 80, 3000, sig_c01, [], rule=(
             "random schema sets over the DESIGN §2 grammar (profiles core, core-many-files, core-keywords, wsdl; one program per "
             "seed sub-stream), generated by the real zeep-lib, emitted file compiled with rustc --emit=metadata against the six "
@@ -865,6 +868,10 @@ def run(prop, tier):
         sigf = {"C05": sig_c05, "C16": sig_c16, "C18": sig_c18}[prop]
         full = prop != "C18"
         cfgs = wsdl_cfgs(q)
+        if prop in ("C05", "C18"):
+            # requests and replies with some thirty members
+            cfgs = cfgs + [("wsdl-wide", gen.cfg_with(files=(1, 2), wsdl=True, quarantine=q, complex_per_file=(0, 2), simple_per_file=(0, 1), elements_per_file=(0, 1),
+                                                     attr_named_simple=False, avoid_nested_same_name=True, p_inline_schemas=0.4, p_wide_content=0.6, ops=(1, 2)))]
         if prop == "C05":
             # reused names (header / body elements with one local name in several namespaces) and several headers
             cfgs = cfgs + [("names-wsdl-headers", gen.cfg_with(**dict(profiles(q)["names-wsdl"], headers=(2, 3), ops=(1, 2), p_header_namesakes=0.7)))]
@@ -922,7 +929,7 @@ def run(prop, tier):
             nontrivial=lambda p: p.stats.get("ns_distinct_uris", 0) >= 2)
     elif prop in ("C03", "C04"):
         sigf = sig_c03 if prop == "C03" else sig_c04
-        check_generic(prop, tier, core_cfgs(q)[:3] + pick(q, "ext"), 32, 800, sigf, ["static", "probe", stage_runtime], rule=(
+        check_generic(prop, tier, core_cfgs(q)[:3] + pick(q, "ext", "ext-wsdl"), 40, 900, sigf, ["static", "probe", stage_runtime], rule=(
             "generator as C01 (XSD profiles) plus the extension-forest profile of C08 (chains over several namespaces); for every complex type and anonymous global element up to 4 sampled values "
             "(minimal / full / many / boundary) are built as Rust literals of the emitted types and of independently written "
             "reference structs, serialized, deserialized from 5 independently rendered instance styles, re-serialized; all XML "
